@@ -47,7 +47,7 @@ def main():
                 if d.endswith(".rs"):
                     name = d[:-3]
                     rc, out = sh(f"cargo test --offline --features levenshtein --test {name} 2>&1 | tail -15", cwd=wt, env=env)
-                    ok = "test result: ok" in out and "FAILED" not in out and "error" not in out.lower().split("test result")[0][-200:]
+                    ok = "test result: ok" in out and "FAILED" not in out and "error:" not in out and "error[" not in out
                     res[d] = {"pass": ok, "tail": out[-600:]}
                 else:
                     rc0, _ = sh("cargo build --offline -p fst-bin 2>&1 | tail -2", cwd=wt, env=env)
